@@ -279,6 +279,11 @@ class Session:
         r = self.gin.constant(op['name'], decode(op['val'], self.gin))
       elif name == 'interactive':
         r = self.gin.enter_interactive_mode() if op['on'] else self.gin.exit_interactive_mode()
+      elif name == 'singleton':
+        def ctor():
+          self.ctor_runs = getattr(self, 'ctor_runs', 0) + 1
+          return Opaque.get(7000 + self.ctor_runs - 1)
+        r = encode(self.cfg.singleton_value(op['key'], ctor if op['ctor'] else None), self.gin)
       elif name == 'locked':
         r = bool(self.gin.config_is_locked())
       elif name == 'registry':
